@@ -59,8 +59,9 @@ static Outcome runStream(const std::vector<std::string>& chunks, int readMax, bo
 		vnet::enable(false);
 		if (vf::asan_tripped()) o.asan = vf::asan_what();
 	};
+	vsched::states_reset();
 	vsched::Result x = vsched::run_once(std::vector<uint8_t>(), body, 20000);
-	vf::add(C_EXEC); vf::add(C_POINTS, x.points.size());
+	vf::add(C_EXEC); vf::add(C_POINTS, x.points.size()); { static int cst = vf::counter("states"); vf::add(cst, vsched::states_count()); }
 	return o;
 }
 
@@ -204,6 +205,7 @@ int main(int argc, char** argv) {
 	W_DELIVERED = vf::counter("w.requests_delivered_and_compared"); W_DROPPED = vf::counter("w.connections_dropped_without_request"); W_DOTDOT = vf::counter("w.targets_decoding_to_dotdot"); W_CHUNKED = vf::counter("w.chunked_bodies"); W_LENGTH_BODY = vf::counter("w.content_length_bodies");
 	W_KEEPALIVE = vf::counter("w.pipelined_keepalive"); W_RANGE = vf::counter("w.range_requests"); W_TRUNC = vf::counter("w.streams_cut_early"); W_SPLIT = vf::counter("w.streams_delivered_in_two_chunks"); W_EXPECT = vf::counter("w.expect_100"); W_FOLDED = vf::counter("w.folded_headers");
 	vsched::set_fatal_handler(onFatal);
+	vsched::set_state_probe(vnet::state_hash);
 	g_root = vf::scratch_dir() + "/root"; if (system(("mkdir -p '" + g_root + "/sub' && printf 012345 > '" + g_root + "/f.txt'").c_str())) {}
 	g_streams = streams();
 	if (vf::opt.replay) { vf::parallel(1, [&](uint64_t) { run_case(vf::opt.kase); }); return vf::finish(); }
@@ -224,7 +226,6 @@ int main(int argc, char** argv) {
 	// C: URL strings
 	int NU = (int)strlen(UA);
 	for (int len = 0; len <= (T ? 7 : 6); len++) { uint64_t n = 1; for (int i = 0; i < len; i++) n *= NU; vf::parallel((n + 255) / 256, [&](uint64_t blk) { for (uint64_t i = blk * 256; i < (blk + 1) * 256 && i < n; i++) { std::string s; uint64_t x = i; for (int k = 0; k < len; k++) { s += UA[x % NU]; x /= NU; } urlCase(s, "url:" + vf::hex(s)); } }); }
-	vf::add(vf::counter("states"), vf::get(C_EXEC)); // one distinct environment script per execution
 	vf::sample("GET /%2e%2e/%2e./a HTTP/1.1 ; GET /a#b?c HTTP/1.1 (every target over {. / %2e %2f %25 a} and {/ a ? # = & % +})");
 	vf::sample("POST /u HTTP/1.1 | Host: h | X-A:v | Content-Length: 10 | abc<EOF>  cut at every byte, split in two at every byte, byte-wise, read(1)");
 	vf::sample("Url(\"[a/]:9\"), Url::decode(\"%\"), Url::parseQuery(\"a=%2\")");
